@@ -102,6 +102,33 @@ EXTRA['eth2/beacon/phase0:ProcessEpochJustification'] = [
     '//@   ensures c02_fin_3: ' + _PREM + ' && st_prevjust(state).Epoch < 4611686018427387904 && st_curjust(state).Epoch < 4611686018427387904 && jbit(set_jbits[0], 0) && jbit(set_jbits[0], 1) && jbit(set_jbits[0], 2) && st_curjust(state).Epoch + 2 == ' + _J + ' ==> n_set_fin == old(n_set_fin) + 1 && set_fin == st_curjust(state)',
     '//@   ensures c02_fin_2: ' + _PREM + ' && st_prevjust(state).Epoch < 4611686018427387904 && st_curjust(state).Epoch < 4611686018427387904 && !(jbit(set_jbits[0], 0) && jbit(set_jbits[0], 1) && st_curjust(state).Epoch + 1 == ' + _J + ') && !(jbit(set_jbits[0], 0) && jbit(set_jbits[0], 1) && jbit(set_jbits[0], 2) && st_curjust(state).Epoch + 2 == ' + _J + ') && jbit(set_jbits[0], 1) && jbit(set_jbits[0], 2) && (st_prevjust(state).Epoch + 2 == ' + _J + ' || (jbit(set_jbits[0], 3) && st_prevjust(state).Epoch + 3 == ' + _J + ')) ==> n_set_fin == old(n_set_fin) + 1 && set_fin == st_prevjust(state)',
     '//@   ensures c02_fin_none: ' + _PREM + ' && st_prevjust(state).Epoch < 4611686018427387904 && st_curjust(state).Epoch < 4611686018427387904 && !(jbit(set_jbits[0], 0) && jbit(set_jbits[0], 1) && st_curjust(state).Epoch + 1 == ' + _J + ') && !(jbit(set_jbits[0], 0) && jbit(set_jbits[0], 1) && jbit(set_jbits[0], 2) && st_curjust(state).Epoch + 2 == ' + _J + ') && !(jbit(set_jbits[0], 1) && jbit(set_jbits[0], 2) && st_prevjust(state).Epoch + 2 == ' + _J + ') && !(jbit(set_jbits[0], 1) && jbit(set_jbits[0], 2) && jbit(set_jbits[0], 3) && st_prevjust(state).Epoch + 3 == ' + _J + ') ==> n_set_fin == old(n_set_fin)']
+# process_inactivity_updates (C02): every eligible validator's score becomes the spec's function of its old score; no other score changes
+PROPS['eth2/beacon/altair:ProcessInactivityUpdates'] = ' C02'
+_E = 'attesterData.EligibleIndices'
+_IP0 = ('old(spec != nil && attesterData != nil && state != nil && attesterData.CurrEpoch != 0 && st_fin(state).Epoch <= attesterData.PrevEpoch'
+        ' && spec.INACTIVITY_SCORE_BIAS < 4294967296 && spec.INACTIVITY_SCORE_RECOVERY_RATE < 4294967296'
+        ' && (forall i, j :: {%s[i], %s[j]} 0 <= i && i < j && j < len(%s) ==> %s[i] != %s[j])'
+        ' && (forall k :: {score_at(n_set_score, st_inact(state), k)} score_at(n_set_score, st_inact(state), k) < 4611686018427387904))') % (_E, _E, _E, _E, _E)
+_IPREM = 'err == nil && ' + _IP0
+_LEAK = '(attesterData.PrevEpoch - st_fin(state).Epoch > spec.MIN_EPOCHS_TO_INACTIVITY_PENALTY)'
+def _istep(e, ver):
+    return ('inact_step(score_at(%s, st_inact(state), %s), !attesterData.Flats[%s].Slashed && attesterData.PrevParticipation[%s] & 2 != 0, %s, spec.INACTIVITY_SCORE_BIAS, spec.INACTIVITY_SCORE_RECOVERY_RATE)'
+            % (ver, e, e, e, _LEAK))
+EXTRA['eth2/beacon/altair:ProcessInactivityUpdates'] = [
+    '//@   assigns ghost(n_set_score)',
+    '//@   opt rangeindex=on',
+    '//@   ensures c02_genesis: err == nil && old(attesterData.CurrEpoch) == 0 ==> n_set_score == old(n_set_score)',
+    '//@   ensures c02_scores: ' + _IPREM + ' ==> (forall j :: {%s[j]} 0 <= j && j < len(%s) ==> score_at(n_set_score, st_inact(state), %s[j]) == old(%s))' % (_E, _E, _E, _istep(_E + '[j]', 'n_set_score')),
+    '//@   ensures c02_others: err == nil ==> (forall k :: {score_at(n_set_score, st_inact(state), k)} (forall j :: {%s[j]} 0 <= j && j < len(%s) ==> %s[j] != k) ==> score_at(n_set_score, st_inact(state), k) == old(score_at(n_set_score, st_inact(state), k)))' % (_E, _E, _E),
+    '//@   loop 1',
+    '//@     invariant n_set_score >= old(n_set_score) && inactivityScores == st_inact(state) && finalized == st_fin(state)',
+    '//@     invariant ' + _IP0 + ' ==> (forall j :: {%s[j]} 0 <= j && j <= rangeindex ==> score_at(n_set_score, st_inact(state), %s[j]) == %s)' % (_E, _E, _istep(_E + '[j]', 'old(n_set_score)')),
+    '//@     invariant ' + _IP0 + ' ==> (forall j :: {%s[j]} rangeindex < j && j < len(%s) ==> score_at(n_set_score, st_inact(state), %s[j]) == score_at(old(n_set_score), st_inact(state), %s[j]))' % (_E, _E, _E, _E),
+    '//@     invariant forall k :: {score_at(n_set_score, st_inact(state), k)} (forall j :: {%s[j]} 0 <= j && j < len(%s) ==> %s[j] != k) ==> score_at(n_set_score, st_inact(state), k) == score_at(old(n_set_score), st_inact(state), k)' % (_E, _E, _E)]
+for f in ('altair', 'bellatrix', 'capella', 'deneb'):
+    EXTRA.setdefault('eth2/beacon/%s:BeaconStateView.ProcessEpoch' % f, []).append('//@   assigns ghost(n_set_score)')
+for k in ('eth2/beacon/common:ProcessSlots', 'eth2/beacon/common:StateTransition'):
+    EXTRA.setdefault(k, []).append('//@   assigns ghost(n_set_score)')
 # end-of-epoch resets (C02): when they fire and with which epoch
 for n in ('ProcessEth1DataReset', 'ProcessSlashingsReset', 'ProcessRandaoMixesReset', 'ProcessHistoricalRootsUpdate'):
     PROPS['eth2/beacon/phase0:' + n] = ' C02'
@@ -144,6 +171,14 @@ for f in ('phase0', 'altair', 'bellatrix', 'capella', 'deneb'):
     EXTRA.setdefault('eth2/beacon/%s:BeaconStateView.ProcessEpoch' % f, []).append(_JG)
 for k in ('eth2/beacon/common:ProcessSlots', 'eth2/beacon/common:StateTransition'):
     EXTRA.setdefault(k, []).append(_JG)
+# validator-field writes and registry iteration are recorded in ghosts (C01/C02 exit queue): whatever may reach them lists them
+_VG = '//@   assigns ghost(n_viter), ghost(viter_pos), ghost(viter_reg), ghost(n_val_write), ghost(n_set_exit), ghost(set_exit_v), ghost(set_exit_val), ghost(n_set_wd), ghost(set_wd_v), ghost(set_wd_val)'
+for f in ('phase0', 'altair', 'bellatrix', 'capella', 'deneb'):
+    for m in ('ProcessEpoch', 'ProcessBlock'):
+        EXTRA.setdefault('eth2/beacon/%s:BeaconStateView.%s' % (f, m), []).append(_VG)
+for k in ('common:ProcessSlots', 'common:StateTransition', 'common:PostSlotTransition', 'phase0:ProcessEpochRegistryUpdates', 'deneb:ProcessEpochRegistryUpdates',
+          'phase0:ProcessVoluntaryExits', 'deneb:ProcessVoluntaryExits', 'phase0:ProcessProposerSlashings', 'phase0:ProcessAttesterSlashings'):
+    EXTRA.setdefault('eth2/beacon/' + k, []).append(_VG)
 sig = re.compile(r'^func (\((\w+) (\*?)(\w+)\) )?(\w+)\((.*)\) (.*) \{$')
 out = collections.defaultdict(list)
 for root, _, files in os.walk(os.path.join(REPO, 'eth2/beacon')):
